@@ -2,6 +2,7 @@ package main
 
 import (
 	"fmt"
+	"go/types"
 	"sort"
 	"strings"
 
@@ -241,13 +242,25 @@ func init() {
 						isBondedG := func(pos bool) bool {
 							return cfa.HasGuard(st, func(g Guard) bool { return g.Pos == pos && g.Cond.IsCall("stakingtypes.Validator.IsBonded") })
 						}
-						if root == "ptr:^bondedValidators" {
+						role := ""
+						if fvr := freeVarRoot(st.Addr); fvr != nil {
+							if pt, ok := fvr.Type().Underlying().(*types.Pointer); ok {
+								switch ts := types.TypeString(pt.Elem(), nil); {
+								case strings.HasSuffix(ts, "[]"+pTypes+".AllianceValidator"):
+									role = "bonded"
+								case strings.HasSuffix(ts, "/types.DecCoins"):
+									role = "unbonded"
+								}
+							}
+						}
+						_ = root
+						if role == "bonded" {
 							okB = isBondedG(true)
 							if !okB {
 								r.Bad(fk, "only bonded validators are adjusted", "a validator is added to the adjustment list without IsBonded() holding", nil, r.P(st))
 							}
 						}
-						if root == "ptr:^unbondedValidatorShares" {
+						if role == "unbonded" {
 							okU = isBondedG(false)
 							if !okU {
 								r.Bad(fk, "unbonded validators' shares are excluded", "shares are added to the unbonded accumulator on a path where the validator may be bonded", nil, r.P(st))
@@ -259,14 +272,19 @@ func init() {
 				r.Check(okU, fk, "unbonded validators' shares are excluded", "unbonded accumulator is on the !IsBonded() branch", "no guarded accumulation of unbonded shares found")
 			}
 			// started-only: every contribution to expectedBondAmount is dominated by RewardsStarted(BlockTime); the not-started branch re-queues
+			// the target is found by its role (the minuend of the amount minted), not by the name of a variable
+			targetCluster := map[*ssa.Phi]bool{}
+			if exp := rebalanceTarget(fa, fn); exp != nil {
+				targetCluster, _ = phiCluster(fa, exp)
+			}
 			var contrib []ssa.CallInstruction
 			for _, c := range CallsTo(fn, "math.LegacyDec.Add") {
-				if argT(fa, c, 0).Op == "phi" && strings.HasPrefix(argT(fa, c, 0).Name, "expectedBondAmount") || recvT(fa, c).Op == "phi" && strings.HasPrefix(recvT(fa, c).Name, "expectedBondAmount") {
+				if p, ok := recvT(fa, c).Instr.(*ssa.Phi); ok && recvT(fa, c).Op == "phi" && targetCluster[p] {
 					contrib = append(contrib, c)
 				}
 			}
 			if len(contrib) == 0 {
-				r.Bad(fk, "contribution site", "cannot find expectedBondAmount.Add(...)", nil, e.Pos(fn.Pos()))
+				r.Bad(fk, "contribution site", "cannot find the additions that build the validator's target stake (the minuend of the amount minted)", nil, e.Pos(fn.Pos()))
 				return
 			}
 			for _, c := range contrib {
@@ -331,52 +349,55 @@ func init() {
 				}
 				return nil, nil, false
 			}
+			var target, current *Term
 			coin := singleCoin(argT(fa, mint, 2))
 			if coin != nil && coin.IsCall("sdk.NewCoin") {
 				exp, cur, ok := diff(coin.Args[1])
-				okG := ok && exp.Op == "phi" && strings.HasPrefix(exp.Name, "expectedBondAmount") && cur.Op == "phi" && strings.HasPrefix(cur.Name, "currentBondedAmount") &&
-					fa.HasFact(mint, exp.String(), ">", cur.String())
+				okG := ok && exp.Op == "phi" && cur.Op == "phi" && fa.HasFact(mint, exp.String(), ">", cur.String())
+				if okG {
+					target, current = exp, cur
+				}
 				r.Check(okG, fk, "amount minted = trunc(target - current), where target > current", "(expected - current).TruncateInt() under expected.GT(current)", "the amount minted and delegated is "+coin.Args[1].String()+", not the truncated positive difference between the validator's target and current alliance stake", r.P(mint))
 			} else {
 				r.Bad(fk, "amount minted", "cannot recognise the minted coin", nil, r.P(mint))
 			}
 			amt := argT(fa, vu, 3)
 			cur, exp, ok := diff(amt)
-			okU := ok && exp.Op == "phi" && strings.HasPrefix(exp.Name, "expectedBondAmount") && cur.Op == "phi" && strings.HasPrefix(cur.Name, "currentBondedAmount") &&
-				fa.HasFact(vu, exp.String(), "<", cur.String())
+			// the same two quantities as on the mint side, in the opposite order
+			okU := ok && target != nil && exp.Eq(target) && cur.Eq(current) && fa.HasFact(vu, exp.String(), "<", cur.String())
 			r.Check(okU, fk, "amount unbonded = trunc(current - target), where target < current", "(current - expected).TruncateInt() under expected.LT(current)", "the amount asked to be unbonded is "+amt.String()+", not the truncated positive difference between current and target: it can exceed what the module's delegation is worth (staking then rejects it and end-of-block fails) or miss the target", r.P(vu))
 			// current stake is the token value of the module's own delegation to this validator
-			for _, b := range fn.Blocks {
-				for _, in := range b.Instrs {
-					if phi, isPhi := in.(*ssa.Phi); isPhi && phi.Comment == "currentBondedAmount" {
-						okC := false
-						for _, ed := range phi.Edges {
-							t := fa.Term(ed)
-							if (t.IsCall("stakingtypes.Validator.TokensFromShares") || t.IsCall("stakingtypes.Validator.TokensFromSharesTruncated")) && len(t.FindCalls("types.StakingKeeper.GetDelegation")) > 0 {
-								okC = true
-							} else if !t.IsCall("math.LegacyZeroDec") {
-								okC = false
-								break
-							}
-						}
-						r.Check(okC, fk, "current stake = token value of the module's delegation (zero if none)", "validator.TokensFromShares[Truncated](GetDelegation(module, val).Shares) or 0 (the rounding direction is decided by C17.unbondfits)", "the current alliance stake of the validator is not read from the module's own staking delegation", r.P(phi))
-					}
-					if phi, isPhi := in.(*ssa.Phi); isPhi && phi.Comment == "expectedBondAmount" {
-						okE := true
-						n := 0
-						for _, ed := range phi.Edges {
-							t := fa.Term(ed)
-							switch {
-							case t.IsCall("math.LegacyZeroDec"), t.Eq(fa.Term(phi)):
-							case t.IsCall("math.LegacyDec.Add") && t.Args[0].Eq(fa.Term(phi)):
-								n++
-							default:
-								okE = false
-							}
-						}
-						r.Check(okE && n == 1, fk, "target = sum of per-asset contributions starting from zero", "expected := 0; expected = expected.Add(contribution)", "the target stake is not accumulated from zero by adding one contribution per asset", r.P(phi))
+			if current != nil {
+				_, leaves := phiCluster(fa, current)
+				okC := false
+				for _, t := range leaves {
+					if (t.IsCall("stakingtypes.Validator.TokensFromShares") || t.IsCall("stakingtypes.Validator.TokensFromSharesTruncated")) && len(t.FindCalls("types.StakingKeeper.GetDelegation")) > 0 {
+						okC = true
+					} else if !t.IsCall("math.LegacyZeroDec") {
+						okC = false
+						break
 					}
 				}
+				r.Check(okC, fk, "current stake = token value of the module's delegation (zero if none)", "validator.TokensFromShares[Truncated](GetDelegation(module, val).Shares) or 0 (the rounding direction is decided by C17.unbondfits)", "the current alliance stake of the validator is not read from the module's own staking delegation", r.P(mint))
+			}
+			if target != nil {
+				cluster, leaves := phiCluster(fa, target)
+				okE := true
+				n := 0
+				for _, t := range leaves {
+					switch {
+					case t.IsCall("math.LegacyZeroDec"):
+					case t.IsCall("math.LegacyDec.Add") && t.Args[0].Op == "phi":
+						if p, ok := t.Args[0].Instr.(*ssa.Phi); ok && cluster[p] {
+							n++
+						} else {
+							okE = false
+						}
+					default:
+						okE = false
+					}
+				}
+				r.Check(okE && n == 1, fk, "target = sum of per-asset contributions starting from zero", "expected := 0; expected = expected.Add(contribution)", "the target stake is not accumulated from zero by adding one contribution per asset", r.P(mint))
 			}
 		}})
 
@@ -678,4 +699,61 @@ func init() {
 			}
 		}})
 	_ = fmt.Sprint
+}
+
+// phiCluster: the phis reachable from t through phi edges, and the distinct non-phi values that flow into them.
+func phiCluster(fa *FuncAnalysis, t *Term) (map[*ssa.Phi]bool, []*Term) {
+	cluster := map[*ssa.Phi]bool{}
+	var leaves []*Term
+	seen := map[string]bool{}
+	var visit func(t *Term)
+	visit = func(t *Term) {
+		if p, ok := t.Instr.(*ssa.Phi); ok && t.Op == "phi" {
+			if cluster[p] {
+				return
+			}
+			cluster[p] = true
+			for _, ed := range p.Edges {
+				visit(fa.Term(ed))
+			}
+			return
+		}
+		if !seen[t.String()] {
+			seen[t.String()] = true
+			leaves = append(leaves, t)
+		}
+	}
+	visit(t)
+	return cluster, leaves
+}
+
+// rebalanceTarget: the validator's target stake in RebalanceBondTokenWeights, identified by its role: the minuend of
+// the truncated difference that is minted.
+func rebalanceTarget(fa *FuncAnalysis, fn *ssa.Function) *Term {
+	for _, mint := range CallsTo(fn, "types.BankKeeper.MintCoins") {
+		coin := singleCoin(argT(fa, mint, 2))
+		if coin != nil && coin.IsCall("sdk.NewCoin") {
+			t := coin.Args[1]
+			if t.IsCall("math.LegacyDec.TruncateInt") && t.Args[0].IsCall("math.LegacyDec.Sub") && t.Args[0].Args[0].Op == "phi" {
+				return t.Args[0].Args[0]
+			}
+		}
+	}
+	return nil
+}
+
+// freeVarRoot: the captured variable that the address is rooted in, if any.
+func freeVarRoot(v ssa.Value) *ssa.FreeVar {
+	for {
+		switch x := v.(type) {
+		case *ssa.FieldAddr:
+			v = x.X
+		case *ssa.IndexAddr:
+			v = x.X
+		case *ssa.FreeVar:
+			return x
+		default:
+			return nil
+		}
+	}
 }
